@@ -1,0 +1,31 @@
+//go:build verif
+
+package interp
+
+// VerifHook is called at every synchronisation point of the arithmetic
+// evaluator (see verif.go). lex identifies the lexer concerned and may
+// be passed to VerifLexer. The hook may block; its result is only
+// meaningful at verifPreSend.
+var VerifHook func(point int, lex interface{}) int
+
+func verifYield(point int, l *lexer) int {
+	if h := VerifHook; h != nil {
+		return h(point, l)
+	}
+	return 0
+}
+
+// VerifLexer reports whether the cancel channel of a lexer passed to
+// VerifHook is closed.
+func VerifLexer(lex interface{}) (nested, cancelled bool) {
+	l, _ := lex.(*lexer)
+	if l == nil {
+		return
+	}
+	select {
+	case <-l.cancel:
+		cancelled = true
+	default:
+	}
+	return
+}
